@@ -1071,3 +1071,38 @@ func jsonUsesE(abs float64) bool { return abs != 0 && (abs < 1e-6 || abs >= 1e21
 //@ func fmtF
 //@   props C18
 //@   trusted frame/congr: token-identical to strconv.fmtF
+
+// ---------------------------------------------------------------------------
+// Marshalling (C10)
+
+//@ func init#1
+//@   props C10
+//@   ensures table: forall(0, 256, func(c int) bool { return shouldEscape[c] == (c < 0x20 || old(shouldEscape)[c]) })
+//@   invariant 0 forall(0, 256, func(c int) bool { return shouldEscape[c] == ((c <= rangeIndex() && c < 0x20) || old(shouldEscape)[c]) })
+//@   safe
+
+// bytes that may appear verbatim inside a JSON string
+func plainByte(c byte) bool { return c >= 0x20 && c != '"' && c != '\\' }
+
+func lastIs(dst []byte, k int, c byte) bool { return len(dst) >= k && dst[len(dst)-k] == c }
+
+func hexDigitOf(v byte) byte { return ite(v < 10, '0'+v, 'a'+v-10) }
+
+// every append of escapeBytes is justified: a byte is copied verbatim only if it is plain, and an escape
+// sequence is emitted only for the byte it denotes (so the output has no raw control byte, quote or lone backslash,
+// and decodes back to the input: S4 of "\b" is 0x08 etc., "\u00XY" is 16*X+Y)
+//@ func escapeBytes
+//@   props C10
+//@   invariant 0 forall(0, rangeIndex()+1, func(j int) bool { return !shouldEscape[src[j]] })
+//@   assertafter `append(dst, src...)` verbatimall: forall(0, len(src), func(j int) bool { return plainByte(src[j]) })
+//@   assertafter `append(dst, src[:i]...)` verbatimprefix: forall(0, i, func(j int) bool { return plainByte(src[j]) })
+//@   assertafter `append(dst, s)` verbatim: plainByte(s)
+//@   assertafter `append(dst, '\\', 'b')` b: s == 8
+//@   assertafter `append(dst, '\\', 'f')` f: s == 12
+//@   assertafter `append(dst, '\\', 'n')` n: s == 10
+//@   assertafter `append(dst, '\\', 'r')` r: s == 13
+//@   assertafter `append(dst, '\\', '"')` quote: s == '"'
+//@   assertafter `append(dst, '\\', 't')` t: s == 9
+//@   assertafter `append(dst, '\\', '\\')` backslash: s == '\\'
+//@   assertafter `append(dst, '\\', 'u', '0', '0', valToHex[s>>4], valToHex[s&0xf])` unicode: s < 0x20 && valToHex[s>>4] == hexDigitOf(s>>4) && valToHex[s&0xf] == hexDigitOf(s&0xf) && s>>4 < 2
+//@   safe [C05]
